@@ -279,6 +279,18 @@ def check(ctx: Ctx) -> list[RuleResult]:
         r2.ok({"Packet.__repr__": "isoformat(microseconds) + ' ... ' + frame"})
     else:
         r2.fail(f"{rp.short}:format", rp.loc(), "Packet.__repr__ is no longer '<26-char timestamp> <3-char rssi placeholder> <frame>'")
+    # the readers cut the timestamp at a fixed column, so every writer of packet/log text prints all 26 characters: isoformat() with
+    # no timespec drops the '.000000' of a packet that arrived on a whole second, and that line is mis-split on replay
+    iso_sites = [(g, n) for g in repo.funcs.values() if g.module.name in ("ramses_tx.logger", "ramses_tx.packet") for n in own_nodes(g.node) if isinstance(n, ast.Call) and isinstance(n.func, ast.Attribute) and n.func.attr == "isoformat"]
+    r2.instances += 1
+    r2.nontrivial += 1
+    short_iso = [(g, n) for g, n in iso_sites if not any(k.arg == "timespec" and isinstance(k.value, ast.Constant) and k.value.value == "microseconds" for k in n.keywords) and not (n.args and any(isinstance(k, ast.keyword) for k in n.keywords))]
+    short_iso = [(g, n) for g, n in short_iso if not any(k.arg == "timespec" and isinstance(k.value, ast.Constant) and k.value.value == "microseconds" for k in n.keywords)]
+    if short_iso:
+        g, n = short_iso[0]
+        r2.fail(f"{g.short}:isoformat-without-microseconds", g.loc(n), f"`{norm(n)[:60]}` in {g.short} prints a timestamp without `timespec='microseconds'`: a packet dated on a whole second is written with a 19-character timestamp, and the replayer's fixed [:26]/[27:] split then cuts that line in the wrong place (the packet is dropped on replay)")
+    else:
+        r2.ok({"isoformat_sites_in_logger_and_packet": len(iso_sites), "all_with_microseconds": True})
     out.append(r2)
 
     # ---- R3 ---------------------------------------------------------------------------
@@ -406,6 +418,20 @@ def check(ctx: Ctx) -> list[RuleResult]:
         r3.fail(f"{fa.short}:seqn-blank", fa.loc(rel[0]), f"seqn={blanks[0]['seqn']!r} is no longer normalised to '---'")
     else:
         r3.ok({"seqn_normalisation": "None/''/'---' -> '---'; 0, 7, '000' are kept", "rows": len(tab.rows)})
+    # the CLI short form: when all three address fields are given they are kept as given (position is information: `A --:------ B`
+    # and `A B --:------` are different frames) - some definition of the address triple is the identity on the three parts
+    fcl = repo.func("ramses_tx.command.Command.from_cli")
+    r3.instances += 1
+    r3.nontrivial += 1
+    trip = [n for n in own_nodes(fcl.node) if isinstance(n, ast.Tuple) and len(n.elts) == 3 and all(isinstance(e, ast.Subscript) and isinstance(e.slice, ast.Constant) for e in n.elts)]
+    ident = [n for n in trip if len({norm(e.value) for e in n.elts}) == 1 and [e.slice.value for e in n.elts] == [0, 1, 2]]
+    any_trip = [n for n in own_nodes(fcl.node) if isinstance(n, ast.Tuple) and len(n.elts) == 3 and isinstance(getattr(n, "parent", None), ast.Assign)]
+    if not any_trip:
+        raise AnalysisError("Command.from_cli: the address triple was not found")
+    if ident:
+        r3.ok({"from_cli": f"three given addresses are kept in place: {norm(ident[0])}"})
+    else:
+        r3.fail(f"{fcl.short}:three-addresses-not-kept", fcl.loc(any_trip[0]), "Command.from_cli has no case that keeps three given address fields in their positions: a frame such as `A --:------ B` (A != B) is silently re-laid-out, so parsing the CLI form and printing it again is not the identity")
     out.append(r3)
 
     # ---- R4 ---------------------------------------------------------------------------
@@ -501,6 +527,23 @@ def check(ctx: Ctx) -> list[RuleResult]:
     if not muts:
         r5.instances += 1
         r5.ok({"mutations_of_extra": 0})
+    # every packet that was delivered is written: the packet-log filters decide on the record's level alone - a filter with memory
+    # (drop a line equal to the previous one, rate limits, sampling) makes the log a different session from the one that happened
+    for fname in ("PktLogFilter",):
+        fc = repo.classes.get(f"ramses_tx.logger.{fname}")
+        if fc is None or "filter" not in fc.methods:
+            raise AnalysisError(f"ramses_tx.logger.{fname}.filter not found")
+        ff = fc.methods["filter"]
+        r5.instances += 1
+        r5.nontrivial += 1
+        rec = [a.arg for a in ff.node.args.args if a.arg != "self"][0]
+        reads5 = sorted({norm(x) for x in own_nodes(ff.node) if isinstance(x, ast.Attribute) and isinstance(x.value, ast.Name) and x.value.id in (rec, "self") and isinstance(x.ctx, ast.Load)} | {f"{rec}.{norm(c.args[1])}" for c in own_nodes(ff.node) if isinstance(c, ast.Call) and norm(c.func) == "getattr" and len(c.args) >= 2 and norm(c.args[0]) == rec} | {f"{rec}.{c.func.attr}()" for c in own_nodes(ff.node) if isinstance(c, ast.Call) and isinstance(c.func, ast.Attribute) and isinstance(c.func.value, ast.Name) and c.func.value.id == rec})
+        state5 = [x for x in own_nodes(ff.node) if isinstance(x, ast.Attribute) and isinstance(x.value, ast.Name) and x.value.id == "self" and isinstance(x.ctx, ast.Store)]
+        extra5 = [r for r in reads5 if r != f"{rec}.levelno"]
+        if state5 or extra5:
+            r5.fail(f"{ff.short}:filter-not-level-only", ff.loc((state5 or [ff.node])[0]), f"{ff.short} decides on {extra5 or 'remembered state'}{' and keeps state between records' if state5 else ''}, not on the record's level alone: some delivered packets are not written to the packet log, so the recorded session does not replay as the same message sequence")
+        else:
+            r5.ok({"filter": ff.short, "decides_on": reads5})
     out.append(r5)
     return out
 
